@@ -10,6 +10,38 @@ COMMON_NOTE = ("Trusted: Coq 8.16.1 kernel + vm_compute (no native_compute, no a
                "translator producing coq/Gen/*.v; the correspondence harness (generators, drivers of /repo code, Gallina literal emission). ")
 
 CLAIMED = {
+    "C01": {
+        "text": "Theorems over a generic executable model of node execution (processors are records with function-valued fields, so every law holds for every "
+                "processor): resolution precedence config > context > default > KeyError, operations/sources replace data, probes pass data through and write exactly "
+                "their context key, sinks pass through, context processors touch only declared keys (frame lemmas on every other key), undeclared writes fail, "
+                "slicers are element-wise maps with first-failure-wins, run (p ++ q) composes in declaration order, a failure at node j means exactly nodes 0..j ran "
+                "and nothing after j matters, construction errors pre-empt everything. Closed under the global context. The executor instantiated with a Gallina copy "
+                "of the component library is run against Pipeline.process on generated pipelines every run (outcome, data, context, failing index, exception class/stage).",
+        "note": "Models coq/Model/Pipeline.v, Sweep.v, PipelineLib.v; float arithmetic over Z (integer-valued floats only; other cases dropped and counted); numpy scalar corner cases "
+                "(division by zero to inf, np.float64 repr inside rendered strings) are outside the model and avoided/dropped by the generator.",
+        "technique": "Coq proof over generic executable model + generated tables + differential correspondence (vm_compute)",
+        "design": "DESIGN.md section 6, C01",
+    },
+    "C08": {
+        "text": "Theorems over an executable model of expand_run_space: sorted-key order, mixed-radix characterisation of the Cartesian product (last key fastest), by_position alignment, "
+                "block and combine characterisations, every run carries exactly the union of keys, every documented rejection, cap rejection (unconditional now that the no-blocks cap "
+                "is repaired) and the cost theorem 'rejected for the cap implies nothing materialised' conditional on the generated fact for the evaluation order (refuted for the current "
+                "order with a witness: open finding F-C08-a). Closed under the global context. Model vs implementation compared on thousands of specs (incl. csv/json/yaml/ndjson sources) "
+                "every run; giant products run in a resource-limited subprocess.",
+        "note": "Model coq/Model/RunSpace.v; file parsing is cross-checked not modelled; the cost twin is tied to the code through the generated evaluation-order fact and the giant stream.",
+        "technique": "Coq proof over executable model + generated facts + differential correspondence + resource-limited giants",
+        "design": "DESIGN.md section 6, C08",
+    },
+    "C13": {
+        "text": "Theorems over an executable model of TraceAggregator: ingest steps of non-conflicting records commute (whole-state equality), verdicts are invariant under every permutation "
+                "and k-way interleaving of a well-formed record set, finalising any number of times changes nothing, for every prefix length of a runtime-shaped trace the verdict is the "
+                "documented one (unknown / partial with missing_pipeline_end and exact missing nodes / complete), launch roll-ups equal the counts of their runs' verdicts; runtime traces are "
+                "well-formed. Closed under the global context. Real traces of single runs and launches are fed to the real aggregator as prefixes, permutations, interleavings and subsets and "
+                "compared with the model every run.",
+        "note": "Model coq/Model/Aggregator.v; status chains and terminal set regenerated from aggregator.py; timestamps/ids are strings or null.",
+        "technique": "Coq proof (commuting steps, induction over prefixes) + generated rule tables + differential correspondence on real traces",
+        "design": "DESIGN.md section 6, C13",
+    },
     "C11": {
         "text": "Theorems over a rose-tree model of _SafeVisitor instantiated with tables regenerated from safe_eval.py on every run: "
                 "acceptance implies every node at any depth/field position (call keywords included) is on the documented whitelist, every call "
